@@ -154,6 +154,22 @@ def tlc_emit(family, module, cfg, workers=8, timeout=1800, tag=None):
     return cases, dict(generated=gen, states=dist, wall=wall)
 
 
+def tlc_simulate(family, module, cfg, num, depth, env, timeout=1800, tag=None):
+    """TLC -simulate: collect the JSON objects printed as <<"REPLAY", "...">> (one or more per behaviour)."""
+    rc, out, wall = _tlc(os.path.join(TLA, family), module, cfg, 1, timeout, tag=tag or (family + "-sim"),
+                         env_extra=dict(env, JAVA_TOOL_OPTIONS="-Xss512m"), extra=["-simulate", f"num={num}", "-depth", str(depth)])
+    if rc == 124:
+        raise ToolError(f"TLC simulation timeout on {family}/{cfg}")
+    cases = []
+    for line in out.splitlines():
+        if line.startswith('<<"REPLAY", '):
+            cases.append(json.loads(json.loads(line[len('<<"REPLAY", '):-2])))
+    if not cases:
+        sys.stdout.write(out[-4000:])
+        raise ToolError(f"TLC simulation of {family}/{module} produced no behaviour")
+    return cases, dict(wall=wall)
+
+
 def tlc_trace(family, module, cfg, trace, timeout=3600, tag=None, heap="4g", defines=None):
     """Validate a recorded ndjson trace.  Returns dict(fail, modeldiff, info, consumed, states)."""
     env = {"TRACE": trace,
